@@ -33,7 +33,7 @@ PROP = "C25"
 QUICK = {"cfgs": [("Signature_quick", 600)],
          "fe_fmts": ["python"], "n_expr": {"python": 800}, "n_sig": 80, "per_fn": 10, "per_mod": 200, "jobs": None}
 THOROUGH = {"cfgs": [("Signature_t2", 3000), ("Signature_t3", 3000)],
-            "fe_fmts": ["python", "c"], "n_expr": {"python": 6000, "c": 2000}, "n_sig": 600, "per_fn": 10, "per_mod": 200, "jobs": None}
+            "fe_fmts": ["python", "c"], "n_expr": {"python": 3000, "c": 1000}, "n_sig": 300, "per_fn": 10, "per_mod": 150, "jobs": None}
 
 SIG_DEFAULTS = ["100", "'s'", "None", "(1, 2)", "-1.5", "K"]
 HAZARD_TAGS = ["assoc", "chain", "cond", "inlist", "negpow", "primary", "tuple1"]
@@ -187,7 +187,7 @@ def build_modules(mods, wd, jobs, rep):
 
     def specs(ms):
         return [core.BuildSpec(m.name, m.gen.pyx(), directives=m.directives) for m in ms]
-    res = core.build_many(specs(mods), workdir=wd, jobs=jobs)
+    res = core.build_many(specs(mods), workdir=wd, jobs=jobs, timeout=1800)
     retry = []
     for m, b in zip(mods, res):
         m.build = b
@@ -213,7 +213,7 @@ def build_modules(mods, wd, jobs, rep):
             m.gen = g2
             retry.append(m)
     if retry:
-        res2 = core.build_many(specs(retry), workdir=os.path.join(wd, "retry"), jobs=jobs)
+        res2 = core.build_many(specs(retry), workdir=os.path.join(wd, "retry"), jobs=jobs, timeout=1800)
         for m, b in zip(retry, res2):
             m.build = b
     return mods
@@ -526,6 +526,7 @@ def run(tier, seed):
             rep.disagree({"part": "frontend", "fmt": fmt}, "frontend-failed", {"errors": err or res})
             continue
         for fn in part:
+            n_obs += 1
             names = [n for n, _, _ in fn["params"]]
             doc = res["docs"].get(fn["fid"])
             sigline, rest = split_doc(doc)
